@@ -67,6 +67,12 @@ def shape(l, r):
         d['DIV(x,y)'] = '((%s)__VERIF_%sDIV_i%d((%s)(x), (%s)(y)))' % (ca, 'S' if sa else 'U', ba, u, u)
         d['REM(x,y)'] = '((%s)__VERIF_%sREM_i%d((%s)(x), (%s)(y)))' % (ca, 'S' if sa else 'U', ba, u, u)
         if sa: d['ART_MIN'] = 'INT32_MIN' if ba == 32 else 'INT64_MIN'
+        if not sl and not sr and bl < 32 and br < 32:
+            # both operands are zero-extended narrow unsigned values: LLVM turns the signed 32-bit division of two non-negative values into an
+            # unsigned one and narrows it to the operand width; the three uninterpreted symbols denote the same quotient / remainder
+            w = max(bl, br)
+            d['DIVREM_NARROW_LEMMA(x,y)'] = ('((y) == 0 || (__VERIF_SDIV_i32((uint32_t)(x),(uint32_t)(y)) == __VERIF_UDIV_i32((uint32_t)(x),(uint32_t)(y)) && __VERIF_UDIV_i32((uint32_t)(x),(uint32_t)(y)) == (uint32_t)__VERIF_UDIV_i%d((uint%d_t)(x),(uint%d_t)(y))'
+                                             ' && __VERIF_SREM_i32((uint32_t)(x),(uint32_t)(y)) == __VERIF_UREM_i32((uint32_t)(x),(uint32_t)(y)) && __VERIF_UREM_i32((uint32_t)(x),(uint32_t)(y)) == (uint32_t)__VERIF_UREM_i%d((uint%d_t)(x),(uint%d_t)(y))))') % (w, w, w, w, w, w)
         if bl < ba:
             # axiom instance of two's complement multiplication (LLVM narrows trunc(mul wide) to mul narrow):
             ul = cl if not sl else 'u' + cl
